@@ -7,11 +7,32 @@ import os, re, json
 import vcheck
 
 
+def coq_closure(rel):
+    """.v files (relative to coq/) that `rel` depends on inside the LV project, transitively (by scanning
+    Require lines) - used to key build caches on exactly what a model is made of."""
+    seen = {}
+    todo = [rel]
+    while todo:
+        r = todo.pop()
+        if r in seen:
+            continue
+        path = os.path.join(vcheck.COQ, r)
+        if not os.path.exists(path):
+            continue
+        seen[r] = True
+        txt = open(path).read()
+        for stmt in re.split(r"\.\s", txt):
+            if "Require" in stmt:
+                for name in re.findall(r"(?:LV\.)?\b((?:Base|Spec|Gen|Model|Proofs)\.[A-Za-z0-9_]+)", stmt):
+                    todo.append(name.replace(".", "/") + ".v")
+    return sorted(seen)
+
+
 def build_model(ctx, extract_v, tag="model"):
     d = os.path.join(ctx.work, tag)
     os.makedirs(d, exist_ok=True)
-    key = vcheck.file_hash([os.path.join(vcheck.COQ, "Extract", extract_v), os.path.join(vcheck.VERIF, "ocaml", "conc_main.ml")] +
-                           [os.path.join(vcheck.COQ, p) for p in vcheck.coq_sources() if p.startswith(("Base/", "Model/", "Spec/", "Gen/"))])
+    deps = coq_closure(os.path.join("Extract", extract_v))
+    key = vcheck.file_hash([os.path.join(vcheck.VERIF, "ocaml", "conc_main.ml")] + [os.path.join(vcheck.COQ, p) for p in deps])
     exe = os.path.join(d, "model_exe")
     stamp = exe + ".key"
     if os.path.exists(exe) and os.path.exists(stamp) and open(stamp).read() == key:
